@@ -70,7 +70,28 @@ class Gate:
         self.ctx = chk.func(rel, qual)
         self.raises = [n for n in _own_nodes(self.ctx.func) if isinstance(n, ast.Raise)]
         self.conds = {id(r): conds_sym(chk, self.ctx, r) for r in self.raises}
-        self.own = {id(r): [(t, p) for t, p, k in conds_sym(chk, self.ctx, r, with_kind=True) if k == "if"] for r in self.raises}
+        self.own_stmts = {}
+        self.own = {id(r): self._own_tests(r) for r in self.raises}
+
+    def _own_tests(self, r):
+        """The tests that decide this raise: its enclosing `if`s, and guard clauses in front of it that leave by `return`
+        (`if acceptable: return x` / `raise ...`).  Earlier guards that leave by `raise` are other gates and do not count."""
+        from ..flow import path_conditions
+        from ..rulelib import stmt_of
+
+        out = []
+        for test, pol, ifstmt, kind in path_conditions(stmt_of(r), self.ctx.func):
+            if kind == "if":
+                pass
+            elif kind == "prior" and isinstance(ifstmt, ast.If):
+                arm = ifstmt.body if not pol else ifstmt.orelse  # the arm that was NOT taken is the one that leaves
+                if not arm or not isinstance(arm[-1], (ast.Return, ast.Continue, ast.Break)):
+                    continue
+            else:
+                continue
+            out.append((self.chk.R.expr(self.ctx, test, self.ctx.cfg.node_of.get(ifstmt)), pol))
+            self.own_stmts.setdefault(id(r), []).append(ifstmt)
+        return out
 
     def decide(self, controlled, probes, override=None, fields=None, what=""):
         """probes: [(combo dict, 'reject'|'accept')]"""
@@ -107,8 +128,16 @@ class Gate:
                 if extra:
                     probs.append(f"the guard at line {r.lineno} additionally depends on {S.show(extra[0])[:80]}: "
                                  "it does not fire for every value outside the accepted set")
-            top = toplevel_stmt(r, ctx.func)
-            node = ctx.cfg.node_of.get(top)
+            # every path to the normal exit must pass the deciding test: the raise's enclosing top-level statement, or,
+            # for a guard clause (`if ok: return x` / `raise`), the top-level statement of that clause
+            tops = [toplevel_stmt(r, ctx.func)] + [toplevel_stmt(st, ctx.func) for st in self.own_stmts.get(id(r), [])]
+            top = tops[0]
+            node = None
+            for tp in tops:
+                nd = ctx.cfg.node_of.get(tp)
+                if nd is not None and ctx.cfg.dominates(nd, ctx.cfg.exit):
+                    node, top = nd, tp
+                    break
             if node is None or not ctx.cfg.dominates(node, ctx.cfg.exit):
                 probs.append(f"the guard at line {top.lineno} does not dominate the normal exit (it can be bypassed)")
             if in_try(r, ctx.func):
